@@ -93,6 +93,17 @@ impl<'a> Tape<'a> {
                 let n = self.below(6) as usize;
                 (0..n).map(|_| char::from_u32(self.pick(&[0x41u32, 0xE9, 0x4E2D, 0x1F600, 0x7F, 0x20, 0x10FFFF, 0x800, 0x7FF])).unwrap()).collect()
             }
+            7 if self.chance(1, 2) => {
+                // long strings of multi-byte characters at every alignment (boundaries at 64, 256, 512 ... bytes)
+                let lead = self.below(4) as usize;
+                let unit = self.pick(&["é", "名", "😀", "aé", "名b😀"]);
+                let target = self.pick(&[60usize, 66, 130, 250, 258, 300, 515, 1030]);
+                let mut s = "x".repeat(lead);
+                while s.len() < target {
+                    s.push_str(unit);
+                }
+                s
+            }
             _ => {
                 // long names (up to the 65535-byte limit, rarely)
                 let n = match self.below(4) {
@@ -372,7 +383,7 @@ pub fn build_sprite(t: &mut Tape, c: &GenCfg) -> Sprite {
             }
             2 => {
                 // many layers that all carry (tiny) cels
-                big.max_layers = 140;
+                big.max_layers = if t.chance(1, 3) { 300 } else { 140 };
                 big.max_frames = 2;
                 big.max_cel = 2;
                 big.cel_density = 7;
@@ -539,12 +550,15 @@ pub fn build_sprite(t: &mut Tape, c: &GenCfg) -> Sprite {
             flags |= (t.raw() as u16) & 0xFF80;
         }
         let blend = if c.blend_modes && t.chance(1, 2) { t.below(19) as u16 } else { 0 };
+        // one layer in six is "plain": Normal mode at full opacity
+        let plain = t.chance(1, 6);
+        let blend = if plain { 0 } else { blend };
         s.layers.push(Layer {
             flags,
             kind,
             level: levels[i],
             blend,
-            opacity: t.u8_biased(),
+            opacity: if plain { 255 } else { t.u8_biased() },
             name: if c.long_names { t.string() } else { t.short_string() },
             user_data: if c.user_data { t.opt_user_data(1, 4) } else { None },
         });
@@ -589,6 +603,9 @@ pub fn build_sprite(t: &mut Tape, c: &GenCfg) -> Sprite {
             } else {
                 None
             };
+            // an "occluder": a fully opaque, full-opacity cel covering the whole canvas (when the canvas is small
+            // enough); combined with plain layers this is what occlusion shortcuts key on
+            let occluder = content.is_none() && !matches!(s.layers[l].kind, LayerKind::Tilemap { .. }) && width as u32 * height as u32 <= 160 * 160 && t.chance(1, 12);
             let (content, cw, ch, unit) = match content {
                 Some(cn) => (cn, 1, 1, (1u16, 1u16)),
                 None => match &s.layers[l].kind {
@@ -614,11 +631,11 @@ pub fn build_sprite(t: &mut Tape, c: &GenCfg) -> Sprite {
                         (CelContent::Tilemap { w: tw, h: th, bits: 32, masks, tiles }, tw.saturating_mul(ts.tw), th.saturating_mul(ts.th), (ts.tw, ts.th))
                     }
                     _ => {
-                        let (cw, ch) = match t.below(12) {
+                        let (cw, ch) = match if occluder { 3 } else { t.below(12) } {
                             0 => (1, 1),
                             1 => (1 + t.below(3) as u16, if t.chance(1, 12) { t.pick(&[65535u16, 32768, 256, 255]) } else { 1 + t.below(3000) as u16 }),
                             2 => (if t.chance(1, 12) { t.pick(&[65535u16, 32768, 256, 255]) } else { 1 + t.below(3000) as u16 }, 1 + t.below(3) as u16),
-                            3 => (width.min(64), height.min(64)),
+                            3 => (if occluder { width.min(160) } else { width.min(64) }, if occluder { height.min(160) } else { height.min(64) }),
                             _ => (1 + t.below(c.max_cel as u32) as u16, 1 + t.below(c.max_cel as u32) as u16),
                         };
                         // sometimes repeat the previous image cel exactly (identical pixels stacked on each other
@@ -661,7 +678,20 @@ pub fn build_sprite(t: &mut Tape, c: &GenCfg) -> Sprite {
                 _ => (x, y),
             };
             last_xy = Some((x, y));
-            cels.push(Cel { layer: l as u16, x, y, opacity: t.u8_biased(), content, user_data: if c.user_data { t.opt_user_data(1, 5) } else { None } });
+            let (x, y) = if occluder { (0, 0) } else { (x, y) };
+            let content = match content {
+                CelContent::Image { w, h, mut pixels } if occluder => {
+                    // make every pixel opaque (indexed sprites: leave the indices alone)
+                    match fmt {
+                        Fmt::Rgba => pixels.chunks_exact_mut(4).for_each(|p| p[3] = 255),
+                        Fmt::Gray => pixels.chunks_exact_mut(2).for_each(|p| p[1] = 255),
+                        Fmt::Indexed => {}
+                    }
+                    CelContent::Image { w, h, pixels }
+                }
+                other => other,
+            };
+            cels.push(Cel { layer: l as u16, x, y, opacity: if occluder { 255 } else { t.u8_biased() }, content, user_data: if c.user_data { t.opt_user_data(1, 5) } else { None } });
         }
         s.frames.push(Frame { duration, cels });
     }
